@@ -186,7 +186,7 @@ def mergeInline (inl : List (String × J)) (kvs : List (String × J)) : List (St
 /-- `TaskSpec._process_action_and_workflow`: `self._input = data.get('input', {})` is the dict of the
     source data only when the key is present.  Domain: `input` absent, null or a dict.  For a string /
     list / number `input` together with inline parameters the code rejects the task (InvalidModelException
-    since repo fix PENDING-07, TypeError before); the correspondence skips those documents. -/
+    since repo fix 9c810d01, TypeError before); the correspondence skips those documents. -/
 def mergeInput (inl : List (String × J)) (kvs : List (String × J)) : List (String × J) :=
   match getKey "input" kvs with
   | some (.obj inp) => setKey "input" (.obj (mergeInline inl inp)) kvs
@@ -292,7 +292,7 @@ def OnClause.written : OnClause → List String
   | .single e | .advSingle e => [e.target]
   | .list es | .advList es => es.map (·.target)
 
-/-- `OnClauseSpec.__init__` + `prepare_next_clause` as coded (after repo fix PENDING-08): a dict is the
+/-- `OnClauseSpec.__init__` + `prepare_next_clause` as coded (after repo fix e74e4242): a dict is the
     advanced form only if it has `next` or `publish`; the guarded single form `{t1: <% guard %>}` is a
     one-element list of transitions, also as the value of `next`. -/
 def OnClause.nextOf : OnClause → List String
@@ -301,7 +301,7 @@ def OnClause.nextOf : OnClause → List String
   | .advSingle e => [e.target]
   | .list es | .advList es => es.map (·.target)
 
-/-- the guarded single entry (before repo fix PENDING-08 the constructor did not read it). -/
+/-- the guarded single entry (before repo fix e74e4242 the constructor did not read it). -/
 def OnClause.isGuardedSingle : OnClause → Bool
   | .single e => e.guarded
   | _ => false
